@@ -399,6 +399,10 @@ func checkC19(c *Ctx) {
 	c19HeaderMerge(c)
 	c19SessionKept(c, builders)
 	c19SessionAdopted(c)
+	// the before-request function and the request see the context of the calling operation (its values), not the stream's
+	if exec := c.P.Func(retryPkg, "Execute"); exec != nil {
+		c17AttemptCtx(c, exec)
+	}
 }
 
 // c19SessionKept (R-session-header): "once one has been issued, the session id" is carried by every request — so the
